@@ -19,6 +19,8 @@ def _decls(tier, seed, fams, k8n=(2, 12)):
         out += C.k5(th)
     if "K6" in fams:
         out += C.k6()
+    if "K9" in fams:
+        out += C.k9()
     if "K8" in fams:
         out += C.k8(seed, k8n[1] if th else k8n[0])
     if not th:
@@ -42,7 +44,7 @@ def _mods(decls, bundle_names, prop, fill, per_decl=None):
 # ----------------------------------------------------------------------------------
 
 def plan_C01(tier, seed):
-    decls = _decls(tier, seed, ["K1", "K2", "K3", "K5", "K6", "K8"])
+    decls = _decls(tier, seed, ["K1", "K2", "K3", "K5", "K6", "K8", "K9"])
 
     def fill(m):
         m.add(E.h_try_from(m))
@@ -58,7 +60,7 @@ def plan_C01(tier, seed):
 
 
 def plan_C05(tier, seed):
-    decls = _decls(tier, seed, ["K1", "K2", "K3", "K5", "K6", "K8"])
+    decls = _decls(tier, seed, ["K1", "K2", "K3", "K5", "K6", "K8", "K9"])
 
     def fill(m):
         m.add(E.h_minmax_next(m))
@@ -71,7 +73,7 @@ def plan_C05(tier, seed):
 
 
 def plan_C03(tier, seed):
-    decls = _decls(tier, seed, ["K1", "K2", "K3", "K4", "K5", "K8"])
+    decls = _decls(tier, seed, ["K1", "K2", "K3", "K4", "K5", "K8", "K9"])
     th = tier == "thorough"
 
     def fill(m):
@@ -94,7 +96,7 @@ def plan_C03(tier, seed):
 
 def plan_C04(tier, seed):
     th = tier == "thorough"
-    decls = _decls(tier, seed, ["K1", "K4", "K8"])
+    decls = _decls(tier, seed, ["K1", "K4", "K8", "K9"])
     k2 = [d for d in C.k2() if d.name in ("k2_i8", "k2_u8", "k2_i8_mid", "k2_i64", "k2_u64")]
     k3 = [d for d in C.k3() if d.name in ("k3_i8_lo", "k3_u8_hi", "k3_i64_lo", "k3_i8_zero")]
     decls += k2 + k3
@@ -156,7 +158,7 @@ def _iter_fill(src, th):
 
 def plan_C06(tier, seed):
     th = tier == "thorough"
-    decls = _decls(tier, seed, ["K1", "K2", "K3", "K5", "K8"])
+    decls = _decls(tier, seed, ["K1", "K2", "K3", "K5", "K8", "K9"])
 
     def per(d):
         allb = ["ITr", "ITn", "ITt", "ITi", "ITa", "ITaf"]
@@ -174,7 +176,7 @@ def plan_C06(tier, seed):
 
 def plan_C07(tier, seed):
     th = tier == "thorough"
-    decls = _decls(tier, seed, ["K1", "K2", "K3", "K5", "K8"])
+    decls = _decls(tier, seed, ["K1", "K2", "K3", "K5", "K8", "K9"])
 
     def per(d):
         allb = ["RGr", "RGn", "RGt", "RGa", "RGaf"]
@@ -191,7 +193,7 @@ def plan_C07(tier, seed):
 
 def plan_C08(tier, seed):
     th = tier == "thorough"
-    decls = _decls(tier, seed, ["K1", "K4", "K5", "K8"])
+    decls = _decls(tier, seed, ["K1", "K4", "K5", "K8", "K9"])
     decls += [d for d in C.k2() if th or d.name in ("k2_i8", "k2_u16", "k2_i64", "k2_i8_mid")]
     decls += [d for d in C.k3() if d.name in ("k3_i8_lo", "k3_u64_hi", "k3_i16_zero")]
 
@@ -206,7 +208,7 @@ def plan_C08(tier, seed):
 
 def plan_C02(tier, seed):
     th = tier == "thorough"
-    decls = _decls(tier, seed, ["K1", "K2", "K3", "K8"])
+    decls = _decls(tier, seed, ["K1", "K2", "K3", "K8", "K9"])
     decls += [d for d in C.k5(th) if d.name in ("k5_i16_300", "k5_i8_138") or th]
     decls += [d for d in C.k4() if d.name in ("k4_dup", "k4_dup_h", "k4_esc_h")]
 
@@ -323,7 +325,8 @@ def plan_C18_oracle(tier, seed):
         m.add(E.h_try_from(m))
         m.add(E.h_minmax_next(m))
         m.add(E.h_as_str(m))
-        m.add(E.h_from_str_pos(m))
+        if m.decl.n <= 40:
+            m.add(E.h_from_str_pos(m))
         m.add(E.h_content(m, "iter"))
         m.add(E.h_content(m, "range"))
         m.add(E.h_content(m, "names"))
